@@ -175,18 +175,26 @@ fn map_position_checks(content: &str, input: &str) -> (Option<String>, Option<St
         if !inside && outside.is_none() {
             outside = Some(format!("generated {}:{} -> {}:{} (input has {} lines)", t.get_dst_line(), t.get_dst_col(), sl, sc, in_lines.len()));
         }
-        // every token that is not part of injected code widens the original line range of its generated line
+        // every token that demonstrably is a COPY of input text (the same word, number or opening of a string stands at the
+        // mapped original position) widens the original line range of its generated line
         {
             let gl = t.get_dst_line() as usize;
             let gc = t.get_dst_col() as usize;
-            let starts_injected = out_lines.get(gl).map(|l| {
-                let rest: String = String::from_utf16_lossy(&l[gc.min(l.len())..]);
-                rest.starts_with("_ddiast") || rest.starts_with("__datadog_") || rest.starts_with("let __datadog_")
-            }).unwrap_or(false);
-            if !starts_injected && (sl as usize) < in_lines.len() {
-                let e = copied_lines.entry(t.get_dst_line()).or_insert((sl, sl));
-                e.0 = e.0.min(sl);
-                e.1 = e.1.max(sl);
+            let word = |l: &Vec<u16>, c: usize| -> Vec<u16> {
+                let mut e = c;
+                if c < l.len() && (l[c] == b'\'' as u16 || l[c] == b'"' as u16 || l[c] == b'`' as u16) { e = (c + 6).min(l.len()); }
+                else { while e < l.len() && is_part(l[e]) { e += 1; } }
+                l[c.min(l.len())..e].to_vec()
+            };
+            if let (Some(ol), Some(il)) = (out_lines.get(gl), in_lines.get(sl as usize)) {
+                let gw = word(ol, gc);
+                let gtext = String::from_utf16_lossy(&gw);
+                let injected_name = gtext.starts_with("_ddiast") || gtext.starts_with("__datadog_");
+                if !gw.is_empty() && !injected_name && gw == word(il, sc as usize) {
+                    let e = copied_lines.entry(t.get_dst_line()).or_insert((sl, sl));
+                    e.0 = e.0.min(sl);
+                    e.1 = e.1.max(sl);
+                }
             }
         }
         if let Some(id) = ident_at(&out_lines, t.get_dst_line(), t.get_dst_col()) {
@@ -220,7 +228,15 @@ fn map_position_checks(content: &str, input: &str) -> (Option<String>, Option<St
     // the largest original line of the identifiers copied onto that line
     let mut stray = None;
     for (gl, gc, sl) in hook_tokens {
-        if let Some((lo, hi)) = copied_lines.get(&gl) {
+        // (a statement may be printed over several generated lines - kept comments force line breaks -, so the copies of the two
+        //  generated lines before and after count as well)
+        let mut range: Option<(u32, u32)> = None;
+        for g in gl.saturating_sub(2)..=gl + 2 {
+            if let Some((lo, hi)) = copied_lines.get(&g) {
+                range = Some(match range { Some((a, b)) => (a.min(*lo), b.max(*hi)), None => (*lo, *hi) });
+            }
+        }
+        if let (Some((lo, hi)), true) = (range.as_ref(), copied_lines.contains_key(&gl)) {
             if (sl < *lo || sl > *hi) && stray.is_none() {
                 stray = Some(format!("hook call at generated {}:{} maps to original line {} but the copied identifiers of that line come from lines {}..{}", gl, gc, sl, lo, hi));
             }
@@ -763,8 +779,9 @@ fn main() {
             "C05" => vec![("unconfigured_hook_referenced", j(&format!("[{ok_run},{{\"unconfigured_hook_referenced\":true}}]"))),
                           ("hook_missing_in_prologue", j(&format!("[{ok_run},{{\"status_is\":\"modified\"}},{{\"prologue_expected\":true}},{{\"hook_missing_in_prologue\":true}}]")))],
             "C09" => vec![("map_points_outside_input", j(&format!("[{ok_run},{{\"status_is\":\"modified\"}},{{\"map_points_outside_input\":true}}]"))),
-                          ("copied_identifier_mismapped", j(&format!("[{ok_run},{{\"status_is\":\"modified\"}},{{\"copied_identifier_mismapped\":true}}]"))),
-                          ("hook_call_mapped_outside_statement", j(&format!("[{ok_run},{{\"status_is\":\"modified\"}},{{\"hook_call_mapped_outside_statement\":true}}]")))],
+                          // (the "hook call inside its statement" oracle approximates statement extents by neighbouring generated
+                          //  lines: good enough for the hand-checked programs that name it, too coarse for arbitrary layouts)
+                          ("copied_identifier_mismapped", j(&format!("[{ok_run},{{\"status_is\":\"modified\"}},{{\"copied_identifier_mismapped\":true}}]")))],
             "C10" => vec![("trailer_count", j(&format!("[{ok_run},{{\"status_is\":\"modified\"}},{{\"map_invalid\":true}}]")))],
             "C14" => vec![("literals_changed_by_instrumentation", j(&format!("[{ok_run},{{\"literals_changed_by_instrumentation\":true}}]"))), ("literal_not_at_reported_position", j(&format!("[{ok_run},{{\"literal_not_at_reported_position\":true}}]")))],
             "C13" => vec![("panics", j(r#"[{"panics":true}]"#))],
